@@ -117,6 +117,8 @@ fn case_strategy() -> BoxedStrategy<StyleCase> {
         1 => any::<u64>().prop_map(|p| (None, p)),
         1 => Just((Some(u64::MAX), u64::MAX)),
         1 => Just((Some(0), 0)),
+        // a huge length hardly begun: with a slow first step the eta saturates
+        2 => (prop_oneof![Just(u64::MAX), (1u64 << 62)..u64::MAX], 0u64..4).prop_map(|(l, p)| (Some(l), p)),
     ];
     (
         proptest::collection::vec(call_strategy(), 1..6),
@@ -210,6 +212,9 @@ fn run_style(c: &StyleCase) -> CaseResult {
     let st = style.clone();
     let r = catch(|| {
         let pb = ProgressBar::with_draw_target(c.len, ProgressDrawTarget::term_like(vt.boxed())).with_message(c.msg.clone());
+        // (in half of the cases the bar starts at its position - no progress has been seen then and the one
+        // step below is the whole history: with a long gap the rate is tiny and the eta saturates)
+        let pb = if c.ticks % 2 == 1 { pb.with_position(c.pos) } else { pb };
         if let Some((tw, false)) = c.tab_width {
             pb.set_tab_width(tw);
         }
@@ -244,6 +249,7 @@ fn run_style(c: &StyleCase) -> CaseResult {
     v.nontrivial = custom_table;
     v.label_if(custom_table, "custom_table_accepted");
     v.label("rendered");
+    v.label_if(c.advance_ms >= 1000 && c.pos < 4 && c.len.map_or(false, |l| l > 1 << 62), "eta_saturates");
     v.label_if(matches!(c.tab_width, Some((w, _)) if w > 32) && c.calls.iter().any(|k| matches!(k, BCall::WithKey)), "custom_key_tab_at_width_gt_32");
     Ok(v)
 }
@@ -321,7 +327,7 @@ pub fn property() -> Property {
             cases: |t| t.pick(36_000, 2_400_000),
             run: run_style,
             signature: no_signature,
-            essential: &["builder_rejected", "documented_rejection", "custom_table_accepted", "rendered", "template_error", "custom_key_tab_at_width_gt_32"],
+            essential: &["builder_rejected", "documented_rejection", "custom_table_accepted", "rendered", "template_error", "custom_key_tab_at_width_gt_32", "eta_saturates"],
             workers: w,
             decode: Some(decode_style),
         })],
